@@ -15,14 +15,14 @@ S["C08"] = dict(title="A connection carries whole packets only", technique=TECH,
     H("verifH_C08_writeTo", "L08.a writeTo: accepted bytes are a prefix, nil iff complete, caller's bytes untouched", T({"maxlen":5,"faults":3}), T({"maxlen":7,"faults":4}), ("complete","failed","timeout-seen")),
     H("verifH_C08_writeBuffersTo", "L08.b writeBuffersTo + real net.Buffers.WriteTo/consume", T({"maxhead":4,"maxpayload":3,"faults":3}), T({"maxhead":5,"maxpayload":4,"faults":4}), ("complete","failed","timeout-seen")),
     H("verifH_C08_requests", "L08.c request wrappers: whole packets, failure closes + connPending, success only when complete", T({"faults":2}), T({"faults":3}), ("complete","failed","not-submitted")),
-    H("verifH_C05_concurrent", "bounded schedule exploration: two concurrent persisted publishes, <= k preemptions: only whole packets on the wire, tokens returned", T({"preempt":2,"wfaults":0}), T({"preempt":3,"wfaults":1}, time_sec=2400, maxpaths=3000000), ("both-written-in-order","end")),
+    H("verifH_C05_concurrent", "bounded schedule exploration: two concurrent persisted publishes, <= k preemptions: only whole packets on the wire, tokens returned", T({"preempt":2,"wfaults":0}), T({"preempt":2,"wfaults":1}, time_sec=2400, maxpaths=3000000), ("both-written-in-order","end")),
     H("verifH_C08_concurrent", "bounded schedule exploration: Publish || PublishRetained || the read routine's acknowledgement on a connection whose Write is a scheduling point, one write fault: whole packets only, each at most once, nothing after an incomplete one, success only when complete", T({"preempt":0,"wfaults":1}), T({"preempt":1,"wfaults":0}, time_sec=2400, maxpaths=3000000), ("end",), poolreuse=True),
     "CONNECT_LIGHT",
   ],
   assumptions=["net.Conn.Write contract: err != nil implies n < len(p); err == nil implies n == len(p)",
     "net.Buffers.WriteTo/consume are executed from SSA on the io.Writer path; *net.TCPConn's writev path is assumed to consume identically",
     "accepted byte counts and fault kinds are case-split exhaustively (forked), byte contents are solver variables"],
-  bounds={"quick":"packet <= 5 bytes single buffer / 4+3 bytes vectored, <= 3 faulty Write calls; requests: 6 request kinds, payload <= 2, <= 2 faulty writes","thorough":"packet <= 7 / 5+4 bytes, <= 4 faulty Write calls; requests <= 3 faulty writes"},
+  bounds={"quick":"packet <= 5 bytes single buffer / 4+3 bytes vectored, <= 3 faulty Write calls; requests: 6 request kinds, payload <= 2, <= 2 faulty writes","thorough":"packet <= 7 / 5+4 bytes, <= 4 faulty Write calls; requests <= 3 faulty writes; two publishers with 2 preemptions and 1 write fault"},
   outside=["real poll.FD.Writev","TLS record framing","packets longer than the bound","interleavings of concurrent writers beyond the writeSem token argument"])
 S["C09"] = dict(title="Emitted packets decode to the request; invalid arguments denied without trace", technique=TECH+"; differential against a reference codec written from the OASIS text", harnesses=[
     H("verifH_C09_strings", "L09.a stringCheck/topicCheck vs RFC 3629 DFA", T({"maxlen":3}), T({"maxlen":5}, time_sec=1500), ("accepted","rejected")),
